@@ -60,11 +60,17 @@ def strip_lean_comments(src):
     return "".join(out)
 
 
-def run_lines(cmd, lines, timeout=120, cwd=None, env=None):
+def run_lines(cmd, lines, timeout=120, cwd=None, env=None, _budget=None):
     """Pipe request lines to a line server; return one answer per request.
-    On a hang or crash the offending request is isolated and answered `timeout` / `crash`."""
+    On a hang or crash the offending request is isolated (bisection, leftmost first) and answered
+    `timeout` / `crash`.  Isolation is bounded (ISOLATION_LAUNCHES process launches per call): when an
+    implementation crashes on thousands of requests the leftmost ones are isolated exactly and the
+    remaining failing chunks are answered `crash-unisolated` line by line, so that a badly broken
+    implementation cannot make a check run for hours."""
     if not lines:
         return []
+    if _budget is None:
+        _budget = [ISOLATION_LAUNCHES]
     data = "\n".join(lines) + "\n"
     try:
         rc, out = sh(cmd, input=data, timeout=timeout, cwd=cwd, env=env)
@@ -77,9 +83,15 @@ def run_lines(cmd, lines, timeout=120, cwd=None, env=None):
         bad = "timeout"
     if len(lines) == 1:
         return [bad]
+    if _budget[0] <= 0:
+        return [bad + "-unisolated"] * len(lines)
+    _budget[0] -= 2
     mid = len(lines) // 2
     t = max(5, timeout // 2)
-    return run_lines(cmd, lines[:mid], t, cwd, env) + run_lines(cmd, lines[mid:], t, cwd, env)
+    return run_lines(cmd, lines[:mid], t, cwd, env, _budget) + run_lines(cmd, lines[mid:], t, cwd, env, _budget)
+
+
+ISOLATION_LAUNCHES = 600
 
 
 class Check:
